@@ -20,7 +20,11 @@ RULE = (
     "alternatives of If / Switch / FSM; nonexclusive method with an exclusive-free call tree called repeatedly); "
     "oracle = defect injected => elaboration raises, otherwise elaboration succeeds; shapes the statement is silent "
     "about are only labelled; non-trivial = every case with an injection (distinct (kind, variant) classes are counted "
-    "in labels) or a base design with a control structure"
+    "in labels) or a base design with a control structure.  As built the variant list is longer: double calls also at "
+    "different depth, through two Method handles of one body and through a nonexclusive method; cyclic priorities also "
+    "lifted from methods and as 'one transaction reaches a body and the method defined inside it'; the dependent-"
+    "conflict defect with the conflict through a shared method or an explicit add_conflict on either transaction or on "
+    "the called methods, declared before or after the dependency, nested or by schedule_before(ready_dependent=True)"
 )
 ASSUMPTIONS = [
     "well-formedness of the base design is judged by our own analysis (repair pass), independent of the library",
@@ -128,6 +132,18 @@ def inject(case):
             label += ":indirect3"
         if v & 1:
             B.append(_t("tx", [_call("r0")]))
+        return spec, "raise", label
+    if kind == "cyclic_priority" and v2 % 4 == 3:
+        # a method defined inside another body is scheduled after it (ready-dependent); one transaction reaching both
+        # the enclosing body and the inner method would have to run before itself
+        inner = _m("y_in")
+        if v % 2:
+            B.insert(0, _m("y_out", stmts=[{"t": "nt", "body": inner}]))
+            B.append(_t("c0", [_call("y_out"), _call("y_in", en=bool(v & 2))]))
+            label += ":inner_method_and_enclosing_method_in_one_transaction"
+        else:
+            B.append(_t("c0", [{"t": "nt", "body": inner}, _call("y_in", en=bool(v & 2))]))
+            label += ":transaction_calls_method_defined_inside_it"
         return spec, "raise", label
     if kind == "cyclic_priority":
         B.append(_t("c0", []))
